@@ -277,8 +277,13 @@ impl Cx<'_> {
     /// All single-fault variants of one datagram, handed to `f`.
     fn sweep(&mut self, base: &[u8], fields_be: bool, f: fn(&mut Self, &[u8]), r: &mut Rng, full: bool) {
         f(self, base);
-        // every truncation length, a few extensions
+        // every truncation length (for datagrams above 4 KiB: every length within 64 bytes of
+        // either end, a stride in between), a few extensions
+        let tstride = if full || base.len() <= 4096 { 1 } else { base.len() / 4096 + 1 };
         for n in 0..base.len() {
+            if tstride > 1 && n > 64 && n + 64 < base.len() && n % tstride != 0 {
+                continue;
+            }
             self.stats.fault("truncate");
             f(self, &base[..n]);
         }
@@ -532,7 +537,7 @@ impl Check for C01Check {
             }
             Family::Chunk => {
                 let b = boards::pwb_boards();
-                for len in [1usize, 2, 3, 4, 5, r.usize(6, 300), r.usize(300, 3000)] {
+                for len in [1usize, 2, 3, 4, 5, r.usize(6, 300), r.usize(300, 3000), *r.pick(&[65535usize, 65534, 65533, 65532, 65516, 65515, 32768, 20000])] {
                     let spec = ChunkSpec {
                         device_id: r.pick(b).device_id,
                         packet_seq: r.next_u32(),
@@ -547,7 +552,7 @@ impl Check for C01Check {
                     let bytes = spec.encode();
                     log.bytes(&bytes);
                     cx.sweep(&bytes, false, Cx::chunk, &mut r, false);
-                    for dl in [0u16, 1, len as u16 + 1, len as u16 + 4, 65535, 65534, 32768] {
+                    for dl in [0u16, 1, (len as u16).wrapping_add(1), (len as u16).wrapping_add(4), 65535, 65534, 32768] {
                         let mut s = spec.clone();
                         s.declared_len = Some(dl);
                         cx.stats.fault("crcvalid_declared_len");
